@@ -253,6 +253,6 @@ def check_any(ctx, case):
 
 FAMILIES = [
     Family('unit-vectors', check_any, enumerate=enum_unit),
-    Family('shipped', check_any, strategy=lambda tier: shipped_case(), n=(1200, 100000)),
-    Family('synthetic', check_any, strategy=lambda tier: synthetic_case(), n=(800, 80000)),
+    Family('shipped', check_any, strategy=lambda tier: shipped_case(), n=(2500, 100000)),
+    Family('synthetic', check_any, strategy=lambda tier: synthetic_case(), n=(2000, 80000)),
 ]
